@@ -150,55 +150,77 @@ ALA 1
 2 C3 1 ALA SC1 2 0.0 36.0
 [ bonds ]
 BB SC1 1 0.27 1000
+[ moleculetype ]
+LYS 1
+[ atoms ]
+1 P5 1 LYS BB 1 0.0 72.0
+2 C3 1 LYS SC1 2 0.0 36.0
+3 Qd 1 LYS SC2 3 1.0 36.0
+[ bonds ]
+BB SC1 1 0.33 5000
+SC1 SC2 1 0.28 5000
 [ link ]
-resname "GLY|ALA"
+resname "GLY|ALA|LYS"
 [ bonds ]
 BB +BB 1 0.35 1250
 [ modification ]
 N-ter
 [ atoms ]
 BB {"replace": {"atype": "Qd", "charge": 1}}
+SC1 {"replace": {"atype": "X1"}}
+[ modification ]
+MID
+[ atoms ]
+SC2 {"replace": {"atype": "X2", "charge": 0}}
 [ modification ]
 C-ter
 [ atoms ]
 BB {"replace": {"atype": "Qa", "charge": -1}}
 """
+MODS = {'N-ter': {'BB': {'atype': 'Qd', 'charge': 1.0}, 'SC1': {'atype': 'X1'}},
+        'MID': {'SC2': {'atype': 'X2', 'charge': 0.0}},
+        'C-ter': {'BB': {'atype': 'Qa', 'charge': -1.0}}}
 
 
 def mod_cases(ctx):
-    """a modification changes nothing but the atoms it names in its target residue, whatever the node keys"""
+    """a modification changes nothing but the atoms it names in its target residue, whatever the
+    node keys, the residue numbering and the other modifications of the same run"""
     rng = ctx.rng
-    for _ in range(ctx.n(25, 250)):
+    for _ in range(ctx.n(40, 400)):
         n = rng.randint(2, 6)
-        g = {'nres': n, 'shape': 'path', 'resnames': [rng.choice(['GLY', 'ALA']) for _ in range(n)], 'edges': [(i, i + 1) for i in range(n - 1)],
+        g = {'nres': n, 'shape': 'path', 'resnames': [rng.choice(['GLY', 'ALA', 'LYS']) for _ in range(n)], 'edges': [(i, i + 1) for i in range(n - 1)],
              'r0': rng.choice([1, 1, 5]), 'keys': list(range(n)), 'order': list(range(n)), 'edge_order': list(range(n - 1)), 'flip': [False] * (n - 1)}
         if rng.random() < 0.7:
             g = ffgen.permute_graph(rng, g)
-        target = rng.randrange(n)
-        resid = g['r0'] + target
-        mod = rng.choice(['N-ter', 'C-ter'])
-        spec = f"{g['resnames'][target]}{resid}"
+        targets = rng.sample(range(n), rng.randint(1, min(3, n)))
+        mods = []
+        per_res = {}
+        for t in targets:
+            mod = rng.choice(sorted(MODS))
+            resid = g['r0'] + t
+            mods.append((f"{g['resnames'][t]}{resid}", mod))
+            per_res[resid] = mod
         plain = ffgen.run_pipeline(MOD_FF, g)
-        out = ffgen.run_pipeline(MOD_FF, g, mods=[(spec, mod)])
-        ctx.case(('mod', json.dumps(g, sort_keys=True), spec, mod), nontrivial=True,
-                 sample={'resnames': g['resnames'], 'keys': g['keys'], 'mod': [spec, mod]})
-        ctx.feature('mod_cases')
+        out = ffgen.run_pipeline(MOD_FF, g, mods=mods)
+        ctx.case(('mod', json.dumps(g, sort_keys=True), json.dumps(mods)), nontrivial=len(mods) >= 2,
+                 sample={'resnames': g['resnames'], 'keys': g['keys'], 'mods': mods})
+        ctx.feature(f'mod_cases_{len(mods)}')
         if 'error' in out or 'error' in plain:
-            ctx.violation('spec', f"modification {mod} on {spec} failed: {out.get('error') or plain.get('error')}",
-                          {'mod_case': True, 'graph': g, 'mod': [spec, mod]})
+            ctx.violation('spec', f"modifications {mods} failed: {out.get('error') or plain.get('error')}",
+                          {'mod_case': True, 'graph': g, 'mods': mods})
             continue
-        want_type = {'N-ter': 'Qd', 'C-ter': 'Qa'}[mod]
         for a, b in zip(plain['links']['atoms'], out['mods']['atoms']):
-            targeted = (a['resid'] == resid and a['name'] == 'BB')
-            if targeted and b['atype'] != want_type:
-                ctx.violation('spec', f"modification {mod} on {spec} did not retype BB of residue {resid} (type {b['atype']})",
-                              {'mod_case': True, 'graph': g, 'mod': [spec, mod]})
-            if not targeted and (a['atype'], a['charge'], a['mass'], a['name'], a['resid']) != (b['atype'], b['charge'], b['mass'], b['name'], b['resid']):
-                ctx.violation('spec', f"modification {mod} on {spec} changed atom {a['name']} of residue {a['resid']}",
-                              {'mod_case': True, 'graph': g, 'mod': [spec, mod]})
+            want = dict(atype=a['atype'], charge=a['charge'], mass=a['mass'])
+            want.update(MODS.get(per_res.get(a['resid']), {}).get(a['name'], {}))
+            got = dict(atype=b['atype'], charge=None if b['charge'] is None else float(b['charge']), mass=b['mass'])
+            if got != want or (a['name'], a['resid'], a['resname'], a['cg']) != (b['name'], b['resid'], b['resname'], b['cg']):
+                ctx.violation('spec', f"modifications {mods}: atom {a['name']} of residue {a['resid']} is {got}, expected {want} "
+                              f"(only atoms named by the modification of their own residue may change)",
+                              {'mod_case': True, 'graph': g, 'mods': mods})
+                break
         if plain['links']['inters'] != out['mods']['inters']:
-            ctx.violation('spec', f"modification {mod} on {spec} changed interactions it does not define",
-                          {'mod_case': True, 'graph': g, 'mod': [spec, mod]})
+            ctx.violation('spec', f"modifications {mods} changed interactions they do not define",
+                          {'mod_case': True, 'graph': g, 'mods': mods})
 
 
 def run(ctx):
@@ -260,8 +282,8 @@ def search(ctx):
 def replay(ctx, data):
     print(json.dumps(data, indent=1, default=str)[:3000])
     if data.get('mod_case'):
-        g, (spec, mod) = data['graph'], data['mod']
-        out = ffgen.run_pipeline(MOD_FF, g, mods=[(spec, mod)])
+        g = data['graph']
+        out = ffgen.run_pipeline(MOD_FF, g, mods=[tuple(m) for m in data['mods']])
         print('replay:', out.get('error') or 'ran')
         return 1 if 'error' in out else 0
     if 'ff' in data and 'graph' in data:
